@@ -68,8 +68,10 @@ class Refine(Contract):
                 Cl("split-at-midpoint", c0["end"] == (so["start"] + so["end"]) / 2),
                 Cl("shared-point-has-level-max+1", z3.And(c0["levels"].items[1] == m + 1, c1["levels"].items[0] == m + 1), prop=True),
                 Cl("outer-levels-inherited", z3.And(c0["levels"].items[0] == l0, c1["levels"].items[1] == l1), prop=True),
-                Cl("children-coarsening", z3.And(c0["coarsening_level"] == zmax(so["coarsening_level"] - 1, 0), c1["coarsening_level"] == c0["coarsening_level"]), prop=True),
-                Cl("children-coarsening-nonneg", c0["coarsening_level"] >= 0, prop=True),
+                # auxiliary: the children's coarsening is provisional -- refinement_postprocessing recomputes every interval's coarsening from lmax and
+                # the end-point levels (update_coarsening_values, contract below) before the structure is observable again
+                Cl("children-coarsening", z3.And(c0["coarsening_level"] == zmax(so["coarsening_level"] - 1, 0), c1["coarsening_level"] == c0["coarsening_level"])),
+                Cl("children-coarsening-nonneg", c0["coarsening_level"] >= 0),
                 Cl("children-same-dimension", z3.And(c0["this_dim"] == so["this_dim"], c1["this_dim"] == so["this_dim"], c0["dim"] == so["dim"], c1["dim"] == so["dim"])),
                 Cl("children-distinct-level-lists", c0["levels"] is not c1["levels"] and c0["levels"] is not env["self"].fields["levels"] and c1["levels"] is not env["self"].fields["levels"]),
                 Cl("no-scheme-extension-requested", result.items[1] is None and result.items[2] is None),
@@ -458,13 +460,15 @@ class ContainerRefine(Contract):
         j = z3.Int("cj")
         po, pn = fo["popArray"].to_symbolic(), f["popArray"].to_symbolic()
         pre_kept = []
-        for fld in ("benefit", "start", "end", "coarsening_level"):
+        for fld in ("benefit", "start", "end"):
             pre_kept.append(z3.ForAll([j], z3.Implies(z3.And(j >= 0, j < n), z3.Select(o.fields[fld], j) == z3.Select(oo.fields[fld], j))))
+        coarsening_kept = z3.ForAll([j], z3.Implies(z3.And(j >= 0, j < n), z3.Select(o.fields["coarsening_level"], j) == z3.Select(oo.fields["coarsening_level"], j)))
         l0o, l1o = oo.fields["levels"]
         l0n, l1n = o.fields["levels"]
         m = zmax(z3.Select(l0o, i), z3.Select(l1o, i))
         return [Cl("two-children-appended", V(o.length) == n + 2, prop=True),
                 Cl("existing-objects-untouched", z3.And(*pre_kept), prop=True),
+                Cl("existing-provisional-coarsening-untouched", coarsening_kept),
                 Cl("children-tile-the-refined-interval", z3.And(z3.Select(o.fields["start"], n) == z3.Select(oo.fields["start"], i),
                                                                 z3.Select(o.fields["end"], n) == z3.Select(o.fields["start"], n + 1),
                                                                 z3.Select(o.fields["end"], n + 1) == z3.Select(oo.fields["end"], i),
